@@ -12,7 +12,8 @@
 EXTENDS Lattice16, Json
 CONSTANTS Tier,        \* "quick" | "thorough"
           Seed,        \* sampling offset of the string lattice
-          KeepInt, KeepFloat, KeepRatio   \* keep one string cell in K
+          KeepInt, KeepFloat, KeepRatio,  \* keep one string cell in K
+          WithStrings  \* FALSE: operation cells only (the totality check does not need the string lattice)
 
 S == INSTANCE Strings16
 
@@ -24,9 +25,9 @@ StrTargets == [int |-> S!IntTargets, float |-> S!FloatTargets, ratio |-> S!Ratio
 
 Init == /\ phase = "pick" /\ cls = <<>> /\ slots = <<>>
         /\ \/ kind = "op" /\ idx \in 1..NOps
-           \/ kind = "int" /\ idx \in 1..Len(S!IntTargets)
-           \/ kind = "float" /\ idx \in 1..Len(S!FloatTargets)
-           \/ kind = "ratio" /\ idx \in 1..Len(S!RatioTargets)
+           \/ WithStrings /\ kind = "int" /\ idx \in 1..Len(S!IntTargets)
+           \/ WithStrings /\ kind = "float" /\ idx \in 1..Len(S!FloatTargets)
+           \/ WithStrings /\ kind = "ratio" /\ idx \in 1..Len(S!RatioTargets)
 
 Hash(sl) == sl[1] * 7 + sl[2] * 31 + sl[3] * 131 + sl[4] * 17 + sl[5] * 211 + sl[6] * 53 + idx * 3 + Seed
 \* slot tuple <<sign, prefix, digits, frac, exp, ratio>>; unused slots stay at 1 (= empty choice)
